@@ -339,6 +339,9 @@ def run(ctx):
     c05.r5_1(ctx, R)
     ctx.rule("R5.1", "see C05 R5.1 (shared): every child poll goes through the accessor applied to the index dequeued in the same "
                      "iteration -- no child is polled out of queue order (e.g. a remembered 'hot' slot polled first)")
+    c01.r1_7(ctx, R)
+    ctx.rule("R1.7", "see C01 R1.7 (shared): a pass over the groups polls every group -- the turn order survives the removal of an "
+                     "exhausted group, the cursor is moved off a group that was put back, Pending only after all groups had their turn")
     c01.r1_6(ctx, R)
     ctx.rule("R1.6", "see C01 R1.6 (shared): a merged stream that yielded Some is re-queued (MARK of the same index, i.e. at the tail) "
                      "before the next drain or return")
